@@ -235,66 +235,111 @@ class _CanonicalBranches(ast.NodeTransformer):
 
     def _accumulate_loops(self, stmts):
         """`X = {}` ... `for T in IT: X[K] = V`  ->  `X = {K: V for T in IT}` and
-        `X = []` ... `for T in IT: [if C:] X.append(E)`  ->  `X = [E for T in IT [if C]]`
-        (nothing between the two statements mentions X, and IT / K / V / E / C do not either)."""
+        `X = []` ... `for T in IT: [if C:] X.append(E)`  ->  `X = [E for T in IT [if C]]`; a loop that fills several such
+        containers (one statement each, after optional temporaries of its own) becomes one comprehension per container.
+        Nothing between the initialisation and the loop mentions X, and IT / K / V / E / C mention none of the containers."""
         out = list(stmts)
         changed = True
         while changed:
             changed = False
             for j, lp in enumerate(out):
-                if not isinstance(lp, ast.For) or lp.orelse or len(lp.body) != 1:
+                if not isinstance(lp, ast.For) or lp.orelse or not lp.body:
                     continue
-                b = lp.body[0]
+                body = list(lp.body)
                 cond = None
-                if isinstance(b, ast.If) and not b.orelse and len(b.body) == 1:
-                    cond, b = b.test, b.body[0]
-                kind = name = None
-                if isinstance(b, ast.Assign) and len(b.targets) == 1 and isinstance(b.targets[0], ast.Subscript) \
-                        and isinstance(b.targets[0].value, ast.Name) and cond is None:
-                    kind, name = "dict", b.targets[0].value.id
-                    parts = [b.targets[0].slice, b.value]
-                elif isinstance(b, ast.Expr) and isinstance(b.value, ast.Call) and isinstance(b.value.func, ast.Attribute) \
-                        and b.value.func.attr == "append" and isinstance(b.value.func.value, ast.Name) \
-                        and len(b.value.args) == 1 and not b.value.keywords:
-                    kind, name = "list", b.value.func.value.id
-                    parts = [b.value.args[0]]
-                if kind is None:
-                    continue
-                if any(self._mentions(x, name) for x in parts + [lp.iter] + ([cond] if cond is not None else [])):
-                    continue
-                # the initialisation: the closest earlier statement of the block that mentions X must be `X = {}` / `X = []`
-                init = None
-                for i in range(j - 1, -1, -1):
-                    if self._mentions(out[i], name):
-                        st0 = out[i]
-                        if isinstance(st0, ast.Assign) and len(st0.targets) == 1 and isinstance(st0.targets[0], ast.Name) \
-                                and st0.targets[0].id == name:
-                            v0 = st0.value
-                            empty_dict = (isinstance(v0, ast.Dict) and not v0.keys) or \
-                                (isinstance(v0, ast.Call) and isinstance(v0.func, ast.Name) and v0.func.id == "dict" and not v0.args and not v0.keywords)
-                            empty_list = (isinstance(v0, ast.List) and not v0.elts) or \
-                                (isinstance(v0, ast.Call) and isinstance(v0.func, ast.Name) and v0.func.id == "list" and not v0.args and not v0.keywords)
-                            if (kind == "dict" and empty_dict) or (kind == "list" and empty_list):
-                                init = i
+                if len(body) == 1 and isinstance(body[0], ast.If) and not body[0].orelse:
+                    cond, body = body[0].test, list(body[0].body)
+                # temporaries of the loop body (`t = f(x)` used by the fills that follow) are substituted into the fills
+                temps = {}
+                fills = []
+                ok = True
+                for b_ in body:
+                    if isinstance(b_, ast.Assign) and len(b_.targets) == 1 and isinstance(b_.targets[0], ast.Name) and not fills:
+                        if b_.targets[0].id in temps:
+                            ok = False
+                            break
+                        temps[b_.targets[0].id] = self._subst_names(b_.value, temps)
+                        continue
+                    kind = name = parts = None
+                    if isinstance(b_, ast.Assign) and len(b_.targets) == 1 and isinstance(b_.targets[0], ast.Subscript) \
+                            and isinstance(b_.targets[0].value, ast.Name) and cond is None:
+                        kind, name = "dict", b_.targets[0].value.id
+                        parts = [b_.targets[0].slice, b_.value]
+                    elif isinstance(b_, ast.Expr) and isinstance(b_.value, ast.Call) and isinstance(b_.value.func, ast.Attribute) \
+                            and b_.value.func.attr == "append" and isinstance(b_.value.func.value, ast.Name) \
+                            and len(b_.value.args) == 1 and not b_.value.keywords:
+                        kind, name = "list", b_.value.func.value.id
+                        parts = [b_.value.args[0]]
+                    if kind is None:
+                        ok = False
                         break
-                if init is None:
+                    fills.append((kind, name, [self._subst_names(x, temps) for x in parts]))
+                if not ok or not fills:
                     continue
-                tgt = copy.deepcopy(lp.target)
-                for n in ast.walk(tgt):
-                    if isinstance(n, (ast.Name, ast.Tuple, ast.List, ast.Starred)):
-                        n.ctx = ast.Store()
-                gen = [ast.comprehension(target=tgt, iter=lp.iter, ifs=[cond] if cond is not None else [], is_async=0)]
-                comp = ast.DictComp(key=parts[0], value=parts[1], generators=gen) if kind == "dict" else \
-                    ast.ListComp(elt=parts[0], generators=gen)
-                new = ast.Assign(targets=[ast.Name(id=name, ctx=ast.Store())], value=comp)
-                ast.copy_location(new, lp)
-                ast.copy_location(comp, lp)
-                ast.fix_missing_locations(new)
-                out[j] = new
-                del out[init]
+                names = [f[1] for f in fills]
+                if len(set(names)) != len(names) or set(names) & set(temps):
+                    continue
+                # the temporaries must be the loop's own (not read after it) - conservatively: not mentioned after the loop
+                if any(self._mentions(x, t_) for t_ in temps for x in out[j + 1:]):
+                    continue
+                exprs = [x for f in fills for x in f[2]] + [lp.iter] + ([cond] if cond is not None else [])
+                if any(self._mentions(x, n_) for x in exprs for n_ in names):
+                    continue
+                inits = {}
+                for kind, name, parts in fills:
+                    for i in range(j - 1, -1, -1):
+                        if self._mentions(out[i], name):
+                            st0 = out[i]
+                            if isinstance(st0, ast.Assign) and len(st0.targets) == 1 and isinstance(st0.targets[0], ast.Name) \
+                                    and st0.targets[0].id == name:
+                                v0 = st0.value
+                                empty_dict = (isinstance(v0, ast.Dict) and not v0.keys) or \
+                                    (isinstance(v0, ast.Call) and isinstance(v0.func, ast.Name) and v0.func.id == "dict" and not v0.args and not v0.keywords)
+                                empty_list = (isinstance(v0, ast.List) and not v0.elts) or \
+                                    (isinstance(v0, ast.Call) and isinstance(v0.func, ast.Name) and v0.func.id == "list" and not v0.args and not v0.keywords)
+                                if (kind == "dict" and empty_dict) or (kind == "list" and empty_list):
+                                    inits[name] = i
+                            break
+                if len(inits) != len(fills):
+                    continue
+                # other statements between an initialisation and the loop must not mention any of the containers
+                lo = min(inits.values())
+                if any(self._mentions(out[i], n_) for i in range(lo, j) if i not in inits.values() for n_ in names):
+                    continue
+                news = []
+                for kind, name, parts in fills:
+                    tgt = copy.deepcopy(lp.target)
+                    for n in ast.walk(tgt):
+                        if isinstance(n, (ast.Name, ast.Tuple, ast.List, ast.Starred)):
+                            n.ctx = ast.Store()
+                    gen = [ast.comprehension(target=tgt, iter=copy.deepcopy(lp.iter),
+                                             ifs=[copy.deepcopy(cond)] if cond is not None else [], is_async=0)]
+                    comp = ast.DictComp(key=parts[0], value=parts[1], generators=gen) if kind == "dict" else \
+                        ast.ListComp(elt=parts[0], generators=gen)
+                    new = ast.Assign(targets=[ast.Name(id=name, ctx=ast.Store())], value=comp)
+                    ast.copy_location(new, lp)
+                    ast.copy_location(comp, lp)
+                    ast.fix_missing_locations(new)
+                    news.append(new)
+                out[j:j + 1] = news
+                for i in sorted(inits.values(), reverse=True):
+                    del out[i]
                 changed = True
                 break
         return out
+
+    @staticmethod
+    def _subst_names(expr, mapping):
+        """expr with the names of `mapping` replaced by (copies of) their expressions"""
+        if not mapping:
+            return expr
+
+        class _S(ast.NodeTransformer):
+            def visit_Name(self, n):
+                if isinstance(n.ctx, ast.Load) and n.id in mapping:
+                    return copy.deepcopy(mapping[n.id])
+                return n
+        return _S().visit(copy.deepcopy(expr))
 
     @staticmethod
     def _unroll_literal_loops(stmts):
@@ -372,8 +417,24 @@ class _CanonicalBranches(ast.NodeTransformer):
         for fld in ("body", "orelse", "finalbody"):
             b = getattr(node, fld, None)
             if isinstance(b, list) and b and isinstance(b[0], ast.stmt):
+                if fld == "body" and isinstance(node, (ast.For, ast.While)):
+                    b = self._loop_tail_guard(b)
                 setattr(node, fld, self._flatten(b, fn_level=isinstance(node, (ast.FunctionDef, ast.AsyncFunctionDef)) and fld == "body"))
         return node
+
+    def _loop_tail_guard(self, body):
+        """a loop body that ends in `if c: REST` (no else) is `if not c: continue` followed by REST"""
+        last = body[-1]
+        if isinstance(last, ast.If) and not last.orelse and not _block_terminates(last.body) and \
+                not any(isinstance(n, (ast.FunctionDef, ast.AsyncFunctionDef, ast.ClassDef)) for n in last.body):
+            pos, flipped = _to_positive(last.test)
+            neg = pos if flipped else _negated(pos)
+            cont = ast.Continue()
+            ast.copy_location(cont, last)
+            guard = ast.If(test=neg, body=[cont], orelse=[])
+            ast.copy_location(guard, last)
+            return body[:-1] + [guard] + self._loop_tail_guard(list(last.body))
+        return body
 
     visit_If = generic_visit
 
